@@ -181,4 +181,46 @@ EXTRA = [
     ("C06", "cp866-strings-in-koi8", "pdpy11/metacommands.py",
      'chunk).encode(state["compiler"].output_charset)', 'chunk).encode(state["compiler"].output_charset if state["compiler"].output_charset != "cp866" else "koi8-r")'),
     ("C06", "slash-escape-keeps-backslash", "pdpy11/parser.py", '    elif char in "\\\\\\"\'/":\n        return char', '    elif char in "\\\\\\"\'":\n        return char\n    elif char == "/":\n        return "\\\\/"'),
+    ("C11", "no-scope-bump-after-label", "pdpy11/compiler.py",
+     "                    if not insn.local:\n                        local_symbol_prefix = f\".local{self.next_local_symbol_prefix}.\"\n                        self.next_local_symbol_prefix += 1",
+     "                    if not insn.local and insn.name.lower() != 'beta':\n                        local_symbol_prefix = f\".local{self.next_local_symbol_prefix}.\"\n                        self.next_local_symbol_prefix += 1"),
+    ("C11", "exported-before-own", "pdpy11/types.py",
+     "        for name in candidates:\n            if name in compiler.symbols:\n                return compiler.symbols[name]\n\n        extern_mapping = compiler.extern_symbols_mapping.get(self.name)",
+     "        if self.name in compiler.extern_symbols_mapping and compiler.extern_symbols_mapping.get(self.name)[1] in compiler.symbols:\n            return compiler.symbols[compiler.extern_symbols_mapping.get(self.name)[1]]\n        for name in candidates:\n            if name in compiler.symbols:\n                return compiler.symbols[name]\n\n        extern_mapping = compiler.extern_symbols_mapping.get(self.name)"),
+    ("C11", "duplicate-export-silently-wins", "pdpy11/compiler.py",
+     "        if name in self.extern_symbols_mapping:\n            previous_extern",
+     "        if name in self.extern_symbols_mapping and False:\n            previous_extern"),
+    ("C11", "extern-all-misses-later-symbols", "pdpy11/compiler.py",
+     "            if state[\"extern_all\"]:\n                self.declare_external_symbol(state[\"extern_all\"], label.name, state)",
+     "            if state[\"extern_all\"] and False:\n                self.declare_external_symbol(state[\"extern_all\"], label.name, state)"),
+    ("C11", "private-symbols-leak-into-include", "pdpy11/compiler.py",
+     "            \"internal_symbol_prefix\": f\".internal{self.next_internal_symbol_prefix}.\",",
+     "            \"internal_symbol_prefix\": f\".internal{self.next_internal_symbol_prefix if link_base.get('set_where', 1) is not None or self.next_internal_symbol_prefix < 2 else self.next_internal_symbol_prefix - 1}.\","),
+    ("C11", "duplicate-constant-silently-ignored", "pdpy11/compiler.py",
+     "        if name in self.symbols:\n            prev_sym, _ = self.symbols[name]\n            reports.error(\n                \"duplicate-symbol\",\n                (insn.ctx_start, insn.ctx_end, f\"Duplicate variable",
+     "        if name in self.symbols:\n            prev_sym, _ = self.symbols[name]\n            return\n            reports.error(\n                \"duplicate-symbol\",\n                (insn.ctx_start, insn.ctx_end, f\"Duplicate variable"),
+    ("C11", "undefined-symbol-is-zero-warning", "pdpy11/types.py",
+     "        reports.error(\n            \"undefined-symbol\",", "        reports.warning(\n            \"undefined-symbol\","),
+    ("C11", "local-labels-visible-file-wide", "pdpy11/types.py",
+     "        candidates = (\n            state[\"local_symbol_prefix\"] + self.name,",
+     "        for key in list(compiler.symbols):\n            if key.startswith(\".local\") and key.endswith(\".\" + self.name) and self.name[0].isdigit() and (state[\"local_symbol_prefix\"] + self.name) not in compiler.symbols:\n                return compiler.symbols[key]\n        candidates = (\n            state[\"local_symbol_prefix\"] + self.name,"),
+    ("C12", "default-base-2000", "pdpy11/compiler.py", 'link_base["promise"].settle(0o1000)', 'link_base["promise"].settle(0o2000)'),
+    ("C12", "second-link-silently-ignored", "pdpy11/compiler.py",
+     '                reports.error(\n                    "address-conflict",\n                    (state["insn"].ctx_start, state["insn"].ctx_end, "The link base has already been set."),',
+     '                reports.warning(\n                    "address-conflict",\n                    (state["insn"].ctx_start, state["insn"].ctx_end, "The link base has already been set."),'),
+    ("C12", "backward-skip-of-one-accepted", "pdpy11/compiler.py", "                                    if length < 0:\n", "                                    if length < -1:\n"),
+    ("C12", "revert-negative-target-fix", "pdpy11/compiler.py",
+     'new_addr_value = get_as_int(state, "link address", state["insn"], insn.value, bitness=16, unsigned=True)',
+     'new_addr_value = get_as_int(state, "link address", state["insn"], insn.value, bitness=16, unsigned=False)'),
+    ("C12", "revert-promise-variable-fix", "pdpy11/deferred.py",
+     "            if isinstance(variable, Promise) and isinstance(key, BaseDeferred) and not isinstance(key, LinearPolynomial):",
+     "            if False and isinstance(variable, Promise) and isinstance(key, BaseDeferred) and not isinstance(key, LinearPolynomial):"),
+    ("C12", "self-dependent-base-assembled-as-zero", "pdpy11/compiler.py",
+     '                reports.error(\n                    "recursive-definition",', '                reports.warning(\n                    "recursive-definition",'),
+    ("C12", "skip-fill-not-zero", "pdpy11/compiler.py", '                                    return b"\\x00" * length', '                                    return b"\\x00" * (length - 1) + (b"\\xff" if length > 40 else b"\\x00") if length else b""'),
+    ("C12", "link-expression-rounded-even", "pdpy11/compiler.py",
+     '                return get_as_int(state, "link address", state["insn"], address, bitness=16, unsigned=False)\n            except DeferredCycle:',
+     '                return get_as_int(state, "link address", state["insn"], address, bitness=16, unsigned=False) & ~1\n            except DeferredCycle:'),
+    ("C12", "polynomial-add-drops-duplicate-key", "pdpy11/deferred.py",
+     "                if key in self.coeffs:\n                    self.coeffs[key] += value", "                if key in self.coeffs:\n                    self.coeffs[key] = value if value > 1 else self.coeffs[key] + value"),
 ]
